@@ -44,8 +44,10 @@ def noncanonical_sd(rng):
         elif k == 3:    # load balancing with reserved byte set
             body = bytes([rng.getrandbits(8)]) + rng.randbytes(4)
             opts.append(len(body).to_bytes(2, "big") + b"\x02" + body)
-        else:
-            body = bytes([rng.getrandbits(8)]) + rng.randbytes(16) + bytes([rng.getrandbits(8), 17]) + rng.randbytes(2)
+        else:           # IPv6 options, also with addresses of special form (v4-mapped, v4-compatible, loopback, link-local, multicast)
+            addr = rng.choice([rng.randbytes(16), rng.randbytes(16), bytes(10) + b"\xff\xff" + rng.randbytes(4), bytes(12) + rng.randbytes(4),
+                               bytes(15) + b"\x01", bytes(16), b"\xfe\x80" + bytes(6) + rng.randbytes(8), b"\xff\x02" + bytes(13) + b"\x01"])
+            body = bytes([rng.getrandbits(8)]) + addr + bytes([rng.getrandbits(8), 17]) + rng.randbytes(2)
             opts.append(len(body).to_bytes(2, "big") + bytes([rng.choice([0x06, 0x16, 0x26])]) + body)
     n = len(opts)
     entries = b""
